@@ -910,7 +910,11 @@ impl Engine for C15 {
                     return res;
                 }
                 Ok(mut srv) => {
-                    let _ = http_burst(srv.port, pollute.as_bytes(), None, 24, 3, std::time::Duration::from_secs(20));
+                    let _ = http_burst(srv.port, pollute.as_bytes(), None, 24, 2, std::time::Duration::from_secs(20));
+                    // (and the same as a fragment: without a root element the assignments are
+                    // made in the document-level scope itself)
+                    let frag = pollute.replace("<svg>", "").replace("</svg>", "");
+                    let _ = http_burst(srv.port, frag.as_bytes(), None, 24, 2, std::time::Duration::from_secs(20));
                     res.stats.probe("program_sent_to_a_server_with_history");
                     let lib_obs = match &ob {
                         Outcome::Ok(b) => observations(&String::from_utf8_lossy(b)),
